@@ -126,6 +126,103 @@ Fixpoint sim_ok (tr content : list nat) (gates : list (list nat)) : Prop :=
       end
   end.
 
+(* ---- the complete step of CircuitPermMPS._apply_gate (since /repo 34d08a81, de0b2923) ----
+       phys_sites = [self.qubits.index(q) for q in gate.qubits]
+       phys_controls = [self.qubits.index(q) for q in gate.controls]          (if any)
+       if gate.label == "SWAP" and not gate.controls:
+           a, b = phys_sites; self.qubits[a], self.qubits[b] = self.qubits[b], self.qubits[a]; return
+       if len(phys_sites) == 2 and not gate.controls:  pop j / insert i+1 (committed after the gate succeeded)
+       otherwise (one / three qubit gates, every controlled gate): the tracker is unchanged             *)
+Record pgate := { pg_swap : bool;            (* gate.label == "SWAP" *)
+                  pg_ctrl : list nat;        (* gate.controls *)
+                  pg_qubits : list nat }.    (* gate.qubits *)
+
+Fixpoint set_nth (i x : nat) (l : list nat) : list nat :=
+  match l, i with
+  | [], _ => []
+  | _ :: t, 0 => x :: t
+  | y :: t, S i' => y :: set_nth i' x t
+  end.
+(* qs[a], qs[b] = qs[b], qs[a] *)
+Definition swap_entries (a b : nat) (l : list nat) : list nat :=
+  set_nth b (nth a l 0) (set_nth a (nth b l 0) l).
+
+Definition is_nil (l : list nat) : bool := match l with [] => true | _ => false end.
+
+(* -> (new tracker, physical sites of the targets, physical sites of the controls) *)
+Definition perm_step_g (qs : list nat) (g : pgate) : option (list nat * list nat * list nat) :=
+  match indices qs (pg_qubits g), indices qs (pg_ctrl g) with
+  | Some phys, Some pc =>
+      if pg_swap g && is_nil (pg_ctrl g) then
+        match phys with
+        | [a; b] => Some (swap_entries a b qs, phys, pc)
+        | _ => None                                   (* a, b = phys_sites raises *)
+        end
+      else if is_nil (pg_ctrl g) then
+        match perm_step qs (pg_qubits g) with
+        | Some (qs', ph) => Some (qs', ph, pc)
+        | None => None
+        end
+      else Some (qs, phys, pc)
+  | _, _ => None
+  end.
+
+Fixpoint perm_run_g (qs : list nat) (gates : list pgate) : option (list nat) :=
+  match gates with
+  | [] => Some qs
+  | g :: r => match perm_step_g qs g with Some (qs', _, _) => perm_run_g qs' r | None => None end
+  end.
+
+(* tracker / target sites / control sites after every gate (what the harness observes) *)
+Fixpoint perm_trace_g (qs : list nat) (gates : list pgate) : list (list nat * list nat * list nat) :=
+  match gates with
+  | [] => []
+  | g :: r => match perm_step_g qs g with
+              | Some (qs', ph, pc) => (qs', ph, pc) :: perm_trace_g qs' r
+              | None => []
+              end
+  end.
+
+(* joint run with the site contents (which logical qubit's state each MPS site holds):
+   - uncontrolled SWAP: no site moves, the two logical qubits exchange their states, i.e. the owners
+     of the two sites are exchanged;
+   - uncontrolled two-qubit gate: gate_with_auto_swap(swap_back=False) moves sites (auto_swap);
+   - everything else: applied where the qubits are.
+   returns (tracker', contents', sites the gate acts on (targets), control sites) *)
+Definition sim_step_g (tr content : list nat) (g : pgate) : option (list nat * list nat * list nat * list nat) :=
+  match perm_step_g tr g with
+  | None => None
+  | Some (tr', phys, pc) =>
+      if pg_swap g && is_nil (pg_ctrl g) then
+        match phys with
+        | [a; b] => Some (tr', swap_entries a b content, [], pc)
+        | _ => None
+        end
+      else if is_nil (pg_ctrl g) then
+        match phys with
+        | [a; b] => let '(c', (s1, s2)) := auto_swap content a b in Some (tr', c', [s1; s2], pc)
+        | _ => Some (tr', content, phys, pc)
+        end
+      else Some (tr', content, phys, pc)
+  end.
+
+(* after every gate: tracker = contents; a non-SWAP gate acts on the sites holding its targets and
+   controls; a SWAP exchanges the owners of the two sites *)
+Fixpoint sim_ok_g (tr content : list nat) (gates : list pgate) : Prop :=
+  match gates with
+  | [] => True
+  | g :: r =>
+      match sim_step_g tr content g with
+      | None => True
+      | Some (tr', c', sites, pc) =>
+          tr' = c'
+          /\ (if pg_swap g && is_nil (pg_ctrl g)
+              then map (fun q => index q c') (pg_qubits g) = map (fun q => index q content) (rev (pg_qubits g))
+              else map (fun s => nth s c' 0) sites = pg_qubits g /\ map (fun s => nth s c' 0) pc = pg_ctrl g)
+          /\ sim_ok_g tr' c' r
+      end
+  end.
+
 Definition is_perm_of_range (n : nat) (l : list nat) : bool :=
   Nat.eqb (length l) n && forallb (fun q => match index q l with Some _ => true | None => false end) (seq 0 n).
 
@@ -142,6 +239,16 @@ Fixpoint natll_eqb (a b : list (list nat)) : bool :=
   | x :: a', y :: b' => natlist_eqb x y && natll_eqb a' b'
   | _, _ => false
   end.
+
+Definition triple_eqb (a b : list nat * list nat * list nat) : bool :=
+  let '(a1, a2, a3) := a in let '(b1, b2, b3) := b in natlist_eqb a1 b1 && natlist_eqb a2 b2 && natlist_eqb a3 b3.
+Fixpoint triples_eqb (a b : list (list nat * list nat * list nat)) : bool :=
+  match a, b with
+  | [], [] => true
+  | x :: a', y :: b' => triple_eqb x y && triples_eqb a' b'
+  | _, _ => false
+  end.
+
 
 (* ------------------------------------------------------------------------- *)
 (* (3) cache state machine                                                     *)
